@@ -36,7 +36,11 @@ RULE = ("case = (namespace tree of depth <= 3 with a nested configuration dict p
         "equal-but-distinct Task objects (same function wrapped twice under one name / deep copy / the copies of one module's "
         "task) in different collections of a generated tree, as pre/post tasks of 1-2 main tasks with different call "
         "arguments or with deduplication off, run by ONE Executor (several execute() calls, repeated commands) or by "
-        "Program; every body must see the deep merge along the path of the collection it lives in")
+        "Program; every body must see the deep merge along the path of the collection it lives in.  Several tasks in one run: trees "
+        "of depth 3-4 in which most inner collections have a default task; runs of 2-4 distinct tasks by Executor.execute or one "
+        "Program command line, named by full names, aliases, root-level and nested default shortcuts (`a.b`, `a.b.c`), built "
+        "around a nested shortcut next to a task of the enclosing collection (both orders), next to tasks of sibling collections "
+        "and of the root, plus random mixtures and their reversals; every body is judged by the same oracle for ITS path")
 TRUSTED = ["Lean 4.33 kernel", "axioms propext/Classical.choice/Quot.sound only",
            "harness/props/c10.py + c17.py: tree builder, serialisation of the real object, canonicalisation",
            "models Invoke/Model/Collection.lean and Invoke/Model/Val.lean hand-written, tied to invoke.collection / "
@@ -59,7 +63,7 @@ LEVEL_TEXT = ("Lean 4 proofs over ALL namespace trees and names: whenever task_w
               "(history_lookup_depends_only_on_current_tree, history_earlier_lookups_irrelevant), is the deep merge along "
               "the path in THAT tree (history_config_is_deep_merge_of_current_tree), configure reaches exactly the "
               "addressed collection and mutations off the path change nothing (configure_updates_the_addressed_collection, "
-              "mutation_off_path_changes_nothing; loaded_copies_are_independent_example for two loads of one module - "
+              "mutation_off_path_changes_nothing; run_settings_are_pointwise for several tasks in one run; loaded_copies_are_independent_example for two loads of one module - "
               "from_module is construction, the model is the resulting tree) - the same step lists are replayed on the real objects and on the model "
               "(driver query H); the model is tied to invoke.collection + "
               "merge_dicts on every run by a differential check on generated trees and a direct recursive-merge oracle; "
@@ -1011,18 +1015,221 @@ def run_unnamed_calls(ctx, out):
             out.fail(dict(case, check=kind), "%s [calls without a name]: %s" % (kind, why))
 
 
+# ------------------------------------------------------------------------------------------ several tasks in one run
+# Every task body of a run sees the settings of ITS path, whatever ran before it in the same execute() / command line and
+# whichever form it was invoked by.  A case = (tree in which most inner collections have a default, explicit list of runs);
+# a run = 2-4 DISTINCT tasks named by full names, aliases, root-level and NESTED default shortcuts (`a.b`, `a.b.c`), built
+# around a nested shortcut next to a task of the enclosing collection (both orders), next to tasks of sibling collections,
+# of the root, and random mixtures with their reversals.
+
+def with_defaults(rng, spec):
+    """give most inner collections that have tasks (and no default yet) a default task: nested shortcuts exist"""
+    for node, path in base.spec_nodes(spec):
+        if path and node["tasks"] and base.default_target_local(node) is None and rng.random() < 0.75:
+            rng.choice(node["tasks"])["default"] = "add"
+    # a fourth level below some grandchild collection, with a default task: shortcuts of depth 3 (`a.b.c`)
+    deep = [(n, p) for n, p in base.spec_nodes(spec) if len(p) == 2]
+    if deep and rng.random() < 0.6:
+        node, path = rng.choice(deep)
+        opts = {"mixed": False, "clash": False, "rich": True}
+        for _try in range(6):
+            sub = base.methodsify(base.gen_node(rng, 2, base.eff_ad(spec), opts, name="lvl4"))
+            if sub["tasks"] and base.well_formed(sub):
+                if base.default_target_local(sub) is None:
+                    sub["tasks"][0]["default"] = "add"
+                if not sub["cfg"]:
+                    sub["cfg"] = base.gen_cfg(rng, True) or {"sec": {"a": 4}}
+                node["colls"].append({"node": sub, "bind": None, "default": False})
+                break
+    return spec
+
+
+def name_forms(infos):
+    """-> list of (name, form, info); form in full / alias / shortcut_root / shortcut_nested<depth>"""
+    out, seen = [], set()
+    for i in infos:
+        forms = [(i["primary"], "full")] + [(a, "alias") for a in i["aliases"]]
+        for x in i["shortcuts"]:
+            if i["primary"].startswith(x + "."):
+                forms.append((x, "shortcut_root" if "." not in x else "shortcut_nested%d" % min(x.count(".") + 1, 3)))
+        for n, f in forms:
+            if n not in seen:
+                seen.add(n)
+                out.append((n, f, i))
+    return out
+
+
+def gen_runs(rng, forms):
+    """explicit runs (lists of names), no task twice in one run"""
+    by_vid = {}
+    for n, f, i in forms:
+        by_vid.setdefault(i["vid"], []).append((n, f, i))
+    vids = sorted(by_vid)
+    if len(vids) < 2:
+        return []
+
+    def name_of(vid, prefer=None):
+        c = by_vid[vid]
+        if prefer:
+            p = [x for x in c if x[1].startswith(prefer)]
+            if p:
+                return rng.choice(p)[0]
+        return rng.choice(c)[0]
+    runs = []
+    nested = [(n, f, i) for n, f, i in forms if f.startswith("shortcut_nested")]
+    rootsc = [(n, f, i) for n, f, i in forms if f == "shortcut_root"]
+    anchors = rng.sample(nested, min(2, len(nested))) + rng.sample(rootsc, min(1, len(rootsc)))
+    for n, f, i in anchors:
+        encl = n.rpartition(".")[0]  # dotted path of the enclosing collection ("" = the root)
+        depth_of_encl = len(encl.split(".")) if encl else 0
+        same = [v for v in vids if v != i["vid"] and len(by_vid[v][0][2]["path_keys"]) == depth_of_encl
+                and (by_vid[v][0][2]["primary"].rpartition(".")[0] == encl)]
+        others = [v for v in vids if v != i["vid"] and v not in same]
+        for v in rng.sample(same, min(2, len(same))):
+            m = name_of(v, rng.choice(["full", "full", "alias"]))
+            runs += [[n, m], [m, n]]
+            if others:
+                o = name_of(rng.choice(others))
+                o2 = name_of(rng.choice(others))
+                runs.append([o, n, m] + ([o2] if o2 != o else []))
+                runs.append([m, n, o])
+        for v in rng.sample(others, min(2, len(others))):
+            m = name_of(v)
+            runs += [[n, m], [m, n]]
+    for _ in range(3):
+        k = min(len(vids), rng.randint(2, 4))
+        run = [name_of(v, rng.choice([None, "shortcut", "alias"])) for v in rng.sample(vids, k)]
+        runs += [run, list(reversed(run))]
+    # no task twice in a run (deduplication would drop the second call)
+    # ... nor two tasks that compare EQUAL: the generated task bodies share one code object, so Task.__eq__ (name + code)
+    # holds for same-named tasks of different collections and deduplication keeps only the first (C19's business)
+    vid_of = {n: i["vid"] for n, f, i in forms}
+    tname_of = {n: (i["spec"]["tname"] or i["spec"]["fn"]) for n, f, i in forms}
+    out = []
+    for r in runs:
+        if len(set(vid_of[x] for x in r)) == len(r) and len(set(tname_of[x] for x in r)) == len(r) and r not in out:
+            out.append(r)
+    return out[:14]
+
+
+def run_multi(tree, runs, via, hist=None):
+    from collections import Counter
+    hist = hist if hist is not None else Counter()
+    spec, root, b = base.build_case(tree)
+    infos = base.expected_bindings(spec, root, b)
+    forms = {n: (f, i) for n, f, i in name_forms(infos)}
+    fails = []
+    for ri, names in enumerate(runs):
+        if any(n not in forms for n in names):
+            continue
+        exps = []
+        for n in names:
+            e = expected_cfg(forms[n][1])
+            exps.append(None if e is None else {k: v for k, v in e.items() if k in base.WATCH_KEYS})
+        if via == "program":
+            _o, _e, log, exc = base.quiet_run(root, list(names))
+        else:
+            log, exc = executor_run_many(root, names)
+        if exc is not None or len(log) != len(names) or [v for v, _ in log] != [forms[n][1]["vid"] for n in names]:
+            why = ("type_clash" if (exc and "AmbiguousMergeError" in exc) or any(e is None for e in exps) else
+                   "raised" if exc else "other_tasks_ran(C10/C19)")
+            hist["multi_run_skipped:" + why] += 1
+            continue
+        hist["multi_runs"] += 1
+        hist["multi_run_len%d" % len(names)] += 1
+        for k, (n, (vid, seen), exp) in enumerate(zip(names, log, exps)):
+            f, i = forms[n]
+            if exp is None:
+                hist["multi_dontcare_type_clash"] += 1
+                continue
+            hist["multi_body_checked"] += 1
+            hist["multi_form_" + f] += 1
+            if k:
+                pf, pi = forms[names[k - 1]]
+                rel = ("same_collection" if pi["path_keys"] == i["path_keys"] else
+                       "prev_in_enclosing" if pi["path_keys"] == i["path_keys"][:-1] else
+                       "prev_in_child" if pi["path_keys"][:-1] == i["path_keys"] else "elsewhere")
+                hist["multi_adjacent:%s_after_%s(%s)" % (f.rstrip("123"), pf.rstrip("123"), rel)] += 1
+            d = diff_path(seen, exp)
+            if d is not None:
+                tp = "/".join(x for _, x in i["path_keys"]) or "<root>"
+                fails.append(("body-sees-other-settings",
+                              "run %r by %s: task #%d (living in %s) invoked as %r (%s)%s sees %r at %s, the merge along ITS path has %r"
+                              % (names, via, vid, tp, n, f, (" right after %r" % names[k - 1]) if k else " first",
+                                 get_path(seen, d), ".".join(d), get_path(exp, d)), ri))
+    return fails
+
+
+def executor_run_many(coll, names):
+    import contextlib
+    import io
+    from invoke import Config, Executor
+    del base.RUNLOG[:]
+    exc = None
+    try:
+        with contextlib.redirect_stdout(io.StringIO()), contextlib.redirect_stderr(io.StringIO()):
+            Executor(coll, config=Config()).execute(*names)
+    except BaseException as e:  # noqa
+        exc = "%s: %s" % (type(e).__name__, e)
+    return list(base.RUNLOG), exc
+
+
+def run_multi_task_runs(ctx, out):
+    rng = ctx.rng
+    count, done, tries = ctx.n(70, 1000), 0, 0
+    while done < count and tries < count * 8:
+        tries += 1
+        spec = base.strip(with_defaults(rng, base.methodsify(base.gen_tree(rng, rich=True))))
+        if not base.well_formed(spec) or not spec["colls"]:
+            continue
+        if base.depth_of(spec) < 3 and rng.random() < 0.75:
+            continue
+        try:
+            spec2, root, b = base.build_case(spec)
+            forms = name_forms(base.expected_bindings(spec2, root, b))
+        except (ValueError, RecursionError):
+            continue
+        runs = gen_runs(rng, forms)
+        if not runs:
+            continue
+        done += 1
+        via = rng.choice(["executor", "executor", "program"])
+        case = {"tree": spec, "names": [], "multi": {"runs": runs, "via": via}}
+        out.hist["multi_cases"] += 1
+        out.case(case, any("." in n and f.startswith("shortcut_nested") for n, f, _ in forms))
+        try:
+            fails = run_multi(spec, runs, via, out.hist)
+        except Exception as e:  # noqa
+            fails = [("unexpected-exception", "multi-task runs raised %s: %s" % (type(e).__name__, e), 0)]
+        for kind, why, ri in fails[:1]:
+            out.hist["fail_" + kind] += 1
+            out.fail({"tree": spec, "names": [], "multi": {"runs": [runs[ri]], "via": via}, "check": kind},
+                     "%s [several tasks in one run]: %s" % (kind, why))
+
+
 def run(ctx):
     out = Outcome()
     drv, lines, expect, nq = base.run_trees(ctx, out, True, oracle_c17, ctx.n(220, 3000), 200 if ctx.thorough else 90,
                                             nontrivial=lambda spec, feats: "shared_section_on_path" in feats)
     run_histories(ctx, out, lines, expect)
     run_unnamed_calls(ctx, out)
+    run_multi_task_runs(ctx, out)
     base.compare(ctx, out, drv, lines, expect)
     out.extra["queries"] = nq
     return out
 
 
 def replay(case):
+    if case.get("multi"):
+        try:
+            fails = run_multi(case["tree"], case["multi"]["runs"], case["multi"]["via"])
+        except ValueError as e:
+            return True, "the API refuses this tree (%s)" % e
+        except Exception as e:
+            return False, "unexpected-exception: multi-task runs raised %s: %s" % (type(e).__name__, e)
+        if fails:
+            return False, "; ".join("%s: %s" % (k, w) for k, w, _ in fails[:3])
+        return True, "ok (%d run(s) of several tasks)" % len(case["multi"]["runs"])
     if case.get("unnamed"):
         try:
             fails = run_unnamed(case["tree"], case["unnamed"])
